@@ -30,6 +30,17 @@ NumV(nk,t) == [k |-> "num", nk |-> nk, v |-> t]
 StrV(s)    == [k |-> "str", v |-> s]
 ListV(a)   == [k |-> "l", a |-> a]
 ObjV(d, kc) == [k |-> "o", d |-> d, kc |-> kc]   \* kc: the characters of every key
+\* Kind-directed equality: recorded results of a WRONG implementation may put a value of another kind where the
+\* specification has, say, a number; TLC's = refuses to compare a string with a sequence, so compare the kind first.
+RECURSIVE SameV(_,_)
+SameV(a, b) ==
+  IF a.k # b.k THEN FALSE
+  ELSE CASE a.k = "nil" -> TRUE
+         [] a.k = "num" -> a.nk = b.nk /\ a.v = b.v
+         [] a.k = "l"   -> Len(a.a) = Len(b.a) /\ \A i \in 1..Len(a.a) : SameV(a.a[i], b.a[i])
+         [] a.k = "o"   -> DOMAIN a.d = DOMAIN b.d /\ (\A key \in DOMAIN a.d : a.kc[key] = b.kc[key] /\ SameV(a.d[key], b.d[key]))
+         [] OTHER       -> a.v = b.v
+SameOut(x, y) == IF IsErr(x) \/ IsErr(y) THEN IsErr(x) /\ IsErr(y) /\ x.err = y.err ELSE SameV(x.v, y.v)
 
 WS == {" ", "\n", "\t", "\r"}
 Digits == {"0", "1", "2", "3", "4", "5", "6", "7", "8", "9"}
@@ -202,26 +213,37 @@ EscStr(s) == IF s = <<>> THEN <<>>
              ELSE IF Head(s) = "^n" THEN <<BS, "n">> \o EscStr(Tail(s))
              ELSE IF Head(s) = "^t" THEN <<BS, "t">> \o EscStr(Tail(s))
              ELSE <<Head(s)>> \o EscStr(Tail(s))
-RECURSIVE Indent(_)
-Indent(n) == IF n = 0 THEN <<>> ELSE <<" ">> \o Indent(n-1)
-NL(lay, depth) == IF lay = "i" THEN <<"\n">> \o Indent(depth) ELSE <<>>
-RECURSIVE Render(_,_,_), RenderArr(_,_,_,_), RenderObj(_,_,_,_)
-Render(v, lay, depth) ==
+RECURSIVE Indent(_,_)
+\* Whitespace layouts (JSON allows blank, tab, CR and LF around every token):
+\*   "c" compact   "i" LF + blanks, blank after colon   "r" CRLF + blanks (Windows)   "t" LF + tabs, tab after colon
+\*   "w" whitespace on BOTH sides of every token (also before , : ] } and inside empty brackets), mixing all four characters
+Layouts == {"c", "i", "r", "t", "w"}
+Indent(lay, n) == IF n = 0 \/ lay \in {"c", "w"} THEN <<>> ELSE (IF lay = "t" THEN <<"\t">> ELSE <<" ">>) \o Indent(lay, n-1)
+NL(lay, depth) == CASE lay = "c" -> <<>>
+                    [] lay = "r" -> <<"\r", "\n">> \o Indent(lay, depth)
+                    [] lay = "w" -> <<"\r">>
+                    [] OTHER     -> <<"\n">> \o Indent(lay, depth)
+BeforeSep(lay)  == IF lay = "w" THEN <<"\t">> ELSE <<>>
+AfterColon(lay) == CASE lay = "c" -> <<>> [] lay = "t" -> <<"\t">> [] lay = "w" -> <<"\n">> [] OTHER -> <<" ">>
+InEmpty(lay)    == IF lay = "w" THEN <<" ">> ELSE <<>>
+RECURSIVE RenderV(_,_,_), RenderArr(_,_,_,_), RenderObj(_,_,_,_)
+RenderV(v, lay, depth) ==
   CASE v.j = "null" -> <<"n","u","l","l">>
     [] v.j = "bool" -> IF v.v = "true" THEN <<"t","r","u","e">> ELSE <<"f","a","l","s","e">>
     [] v.j = "num"  -> v.cs
     [] v.j = "str"  -> <<DQ>> \o EscStr(v.cs) \o <<DQ>>
-    [] v.j = "arr"  -> IF v.xs = <<>> THEN <<"[", "]">>
+    [] v.j = "arr"  -> IF v.xs = <<>> THEN <<"[">> \o InEmpty(lay) \o <<"]">>
                        ELSE <<"[">> \o NL(lay, depth+1) \o RenderArr(v.xs, lay, depth+1, 1) \o NL(lay, depth) \o <<"]">>
-    [] v.j = "obj"  -> IF v.es = <<>> THEN <<"{", "}">>
+    [] v.j = "obj"  -> IF v.es = <<>> THEN <<"{">> \o InEmpty(lay) \o <<"}">>
                        ELSE <<"{">> \o NL(lay, depth+1) \o RenderObj(v.es, lay, depth+1, 1) \o NL(lay, depth) \o <<"}">>
 RenderArr(xs, lay, depth, i) ==
   IF i > Len(xs) THEN <<>>
-  ELSE Render(xs[i], lay, depth) \o (IF i < Len(xs) THEN <<",">> \o NL(lay, depth) ELSE <<>>) \o RenderArr(xs, lay, depth, i+1)
+  ELSE RenderV(xs[i], lay, depth) \o (IF i < Len(xs) THEN BeforeSep(lay) \o <<",">> \o NL(lay, depth) ELSE <<>>) \o RenderArr(xs, lay, depth, i+1)
 RenderObj(es, lay, depth, i) ==
   IF i > Len(es) THEN <<>>
-  ELSE <<DQ>> \o EscStr(es[i][1]) \o <<DQ, ":">> \o (IF lay = "i" THEN <<" ">> ELSE <<>>) \o Render(es[i][2], lay, depth)
-         \o (IF i < Len(es) THEN <<",">> \o NL(lay, depth) ELSE <<>>) \o RenderObj(es, lay, depth, i+1)
+  ELSE <<DQ>> \o EscStr(es[i][1]) \o <<DQ>> \o BeforeSep(lay) \o <<":">> \o AfterColon(lay) \o RenderV(es[i][2], lay, depth)
+         \o (IF i < Len(es) THEN BeforeSep(lay) \o <<",">> \o NL(lay, depth) ELSE <<>>) \o RenderObj(es, lay, depth, i+1)
+Render(v, lay, depth) == IF lay = "w" THEN <<"\n">> \o RenderV(v, lay, depth) \o <<"\r", "\n">> ELSE RenderV(v, lay, depth)
 
 \* the data a JSON document denotes (empty containers read back as nil)
 RECURSIVE Denotes(_)
